@@ -9,6 +9,12 @@ LLSE_NOTE = ('Trusted base: rustc/LLVM up to the emitted IR (the IR is what is c
              'Verdicts hold within the stated structural bounds only; see evidence coverage.bounds / outside_claim.')
 
 CLAIMED = {
+ 'C18': dict(
+    text='Bounded symbolic model checking of the compiled list.rs: (a) one inductive step — from every representation state satisfying the invariant (view absent or (s,e) with s<=e==alloc.len(); allocation length up to the bound, ring buffer rotated or not, sole owner or sharing with a second handle with/without a view) each of the 9 public operations, chosen symbolically with symbolic element values, must leave the operated handle with exactly the elements of a plain sequence model, leave the other handle unchanged and re-establish the invariant; because the post-state satisfies the invariant the step composes to histories of any length; (b) every history of k operations over three handles from new() through the public API only, which also shows the reachable states satisfy the assumed invariant.',
+    design_ref='DESIGN.md §4 C18', technique='symbolic execution of LLVM IR + SMT (z3 QF_BV): inductive step over symbolic representation states + bounded histories'),
+ 'C21': dict(
+    text='Bounded symbolic model checking through the whole real pipeline: programs assert(a<b), assert_eq(a u1, b u2), assert_eq(a u1, b u2, eps u3), each followed by print and a definition, are interpreted by a real session (tokenizer, parser, type checker, compiler, VM, ffi procedures) whose prelude defines the case\'s units from the catalog; a, b, eps are symbolic doubles injected through the __verif_sym hook. On every feasible path the outcome (success / AssertFailed / AssertEq2Failed / AssertEq3Failed) must agree with the documented predicate evaluated by a reference in the harness, and after a failure no later statement may have run (nothing printed, marker undefined).',
+    design_ref='DESIGN.md §4 C21', technique='symbolic execution of LLVM IR (whole interpreter pipeline) + SMT (z3 QF_FPBV), native replay'),
  'C20': dict(
     text='Bounded symbolic model checking of the compiled code: HtmlWriter (write_all in two writes at every split point, every colour state) and HtmlFormatter::format (every FormatType) are executed on texts whose bytes are symbolic ASCII values; on every feasible path the output must equal the renderer\'s own span wrapper around the escaped input and contain no other `<` / `>`. Exhaustive over all ASCII strings up to the stated length, which is the right level because escaping is per byte and the defect class is one unescaped metacharacter at one position or a wrong byte count returned to write_all.',
     design_ref='DESIGN.md §4 C20', technique='symbolic execution of LLVM IR + SMT (z3 QF_BV), replay-mode path exploration, native replay'),
